@@ -85,11 +85,17 @@ class Engine:
         self.stack = set()
         self.mismatch = []      # definite I +/- E events: (fn path, span, degs)
         self.unmodelled = {}    # callee name -> count (why something became T)
+        # "euler": degrees under (V, N) -> (l V, l N).  "order": vanishing order in the density at fixed T, V, x
+        # (partial_density, moles of order 1): sums take the smaller order, and operations that are singular for a
+        # vanishing operand (division, recip, ln, roots, negative powers) are recorded in self.singular
+        self.mode = "euler"
+        self.state_fields = {"volume": ONE, "moles": ONE}
+        self.singular = []      # (fn path, span, operation, order of the operand)
 
     # -------------------------------------------------------- per body
     def analyse(self, body, arg_degs, upvars=None):
         """returns degree of the return value given degrees of the arguments (list aligned with locals 1..n)"""
-        key = (body.path, tuple(show(x) for x in arg_degs), tuple(sorted((k, show(v)) for k, v in (upvars or {}).items())))
+        key = (self.mode, body.path, tuple(show(x) for x in arg_degs), tuple(sorted((k, show(v)) for k, v in (upvars or {}).items())))
         if key in self.memo:
             return self.memo[key]
         if key in self.stack:
@@ -134,12 +140,23 @@ class Engine:
             if isinstance(p, dict) and "f" in p:
                 if cur == STATE:
                     if (p.get("o") or "").endswith("StateHD"):
-                        return ONE if p["n"] in ("volume", "moles") else I
+                        return self.state_fields.get(p["n"], I)
                     return T
                 if isinstance(cur, tuple):
                     return cur[p["f"]] if p["f"] < len(cur) else T
                 return cur
             return cur      # index / downcast keep the element degree
+
+        order = self.mode == "order"
+
+        def definite_pos(d):
+            return d not in (Z, T, STATE, "BOT") and not isinstance(d, tuple) and d > 0
+
+        def sing(span, what, d):
+            if order and definite_pos(d):
+                ev = (b.path, span, what, show(d))
+                if ev not in self.singular:
+                    self.singular.append(ev)
 
         def op_deg(o):
             k = o.get("k")
@@ -259,6 +276,7 @@ class Engine:
             if name in ("mul",) and tr == "std::ops::Mul":
                 return add_deg(ad[0], ad[1])
             if name == "div" and tr == "std::ops::Div":
+                sing(span, "division by", ad[1])
                 return sub_deg(ad[0], ad[1])
             if name in ("add", "sub") and tr in ("std::ops::Add", "std::ops::Sub"):
                 a, c = ad
@@ -270,6 +288,8 @@ class Engine:
                     return T
                 if a == c:
                     return a
+                if order and not isinstance(a, tuple) and not isinstance(c, tuple):
+                    return min(a, c)
                 local_mismatch.append((b.path, span, show(a), show(c)))
                 return T
             if name in ("mul_assign", "div_assign") and tr in ("std::ops::MulAssign", "std::ops::DivAssign"):
@@ -285,6 +305,10 @@ class Engine:
                 for base in ref_bases(args[0]["place"]["l"]) if args[0].get("k") in ("copy", "move") else ():
                     cur = deg[base]
                     if cur not in ("BOT", Z, T) and y not in (Z, T) and cur != y and cur != STATE and y != STATE:
+                        if order and not isinstance(cur, tuple) and not isinstance(y, tuple):
+                            # the accumulated sum has the smaller order; the lattice join would lose it: keep unknown
+                            setl(base, T)
+                            continue
                         local_mismatch.append((b.path, span, show(cur), show(y)))
                         setl(base, T)
                     else:
@@ -295,6 +319,7 @@ class Engine:
             if b.pty(t["dest"])["k"] in ("bool", "int", "unit", "char", "str"):
                 return I
             if name == "recip":
+                sing(span, "reciprocal of", ad[0])
                 # monotone in the lattice: Z (no information yet / literal zero) must not jump to T
                 return sub_deg(I, ad[0]) if ad[0] != Z else Z
             if name in ("powi", "powf"):
@@ -304,17 +329,29 @@ class Engine:
                 if k.get("k") == "const":
                     try:
                         kv = Fraction(k["i"]) if "i" in k else Fraction(float(k["f"])).limit_denominator(1000)
+                        if kv < 0 or kv.denominator != 1:
+                            sing(span, "power %s of" % kv, ad[0])
                         return ad[0] * kv if ad[0] not in (T, STATE) else T
                     except Exception:
                         return T
                 return T
             if name == "sqrt":
+                sing(span, "square root of", ad[0])
                 return ad[0] / 2 if ad[0] not in (T, Z, STATE) else ad[0]
             if name == "cbrt":
+                sing(span, "cube root of", ad[0])
                 return ad[0] / 3 if ad[0] not in (T, Z, STATE) else ad[0]
             if name in TRANSC:
                 if all(x in (I, Z) for x in ad):
                     return I
+                if order:
+                    if name in ("ln", "log", "log10", "log2"):
+                        sing(span, "logarithm of", ad[0])
+                        return T
+                    if name in ("exp", "cos", "cosh") and ad and definite_pos(ad[0]):
+                        return I            # exp(0) = cos(0) = 1
+                    if name in ("sin", "tan", "sinh", "tanh", "exp_m1", "ln_1p", "asin", "atan", "erf") and ad and definite_pos(ad[0]):
+                        return ad[0]        # f(x) ~ x
                 self.unmodelled[name] = self.unmodelled.get(name, 0) + 1
                 return T
             if name == "dot":
@@ -402,6 +439,7 @@ class Engine:
                         elif op.startswith("Mul"):
                             d = add_deg(a, c)
                         elif op == "Div":
+                            sing(st["span"], "division by", c)
                             d = sub_deg(a, c)
                         elif op.startswith("Add") or op.startswith("Sub"):
                             if a == Z:
@@ -412,6 +450,8 @@ class Engine:
                                 d = T
                             elif a == c:
                                 d = a
+                            elif order and not isinstance(a, tuple) and not isinstance(c, tuple) and a != STATE and c != STATE:
+                                d = min(a, c)
                             else:
                                 local_mismatch.append((b.path, st["span"], show(a), show(c)))
                                 d = T
